@@ -483,7 +483,7 @@ class Interp:
             finally:
                 self._busy.discard(key)
             return v
-        if name in _SAFE_BUILTINS or name in ("isinstance",):
+        if name in _SAFE_BUILTINS or name in ("isinstance", "map", "filter"):
             return _Builtin(name)
         raise TranslateError("name %r is not bound to anything readable (%s)" % (name, _where(node) if node else "?"))
 
@@ -743,6 +743,13 @@ class Interp:
                 if kw or len(args) != 2:
                     raise TranslateError("%s: two operands expected (%s)" % (f.name, _where(node)))
                 return self._binop(_OPERATOR_FUNCS[f.name[9:]], args[0], args[1], node)
+            if f.name in ("map", "filter"):
+                if kw or len(args) != 2:
+                    raise TranslateError("%s: unexpected arguments (%s)" % (f.name, _where(node)))
+                seq = list(self._concrete(args[1], node, allow_elems=True))
+                if f.name == "map":
+                    return [self.apply(args[0], [x], {}, node) for x in seq]
+                return [x for x in seq if self._truth(self.apply(args[0], [x], {}, node) if args[0] is not None else x, node)]
             if f.name == "isinstance":
                 raise TranslateError("isinstance() is not evaluated statically (%s)" % _where(node))
             fn = _SAFE_BUILTINS[f.name]
@@ -1267,15 +1274,13 @@ def read_parse_file(fn, interp):
         rets = [r for r in ast.walk(fn) if isinstance(r, ast.Return)]
         if len(rets) != 1 or not isinstance(rets[0].value, ast.Name) or rets[0].value.id != acc_name:
             raise TranslateError("parse_file: the result list is not what is returned")
-        if isinstance(chain[0], ast.Call) or True:
+        is_loop = any(isinstance(n, ast.For) for n in chain)
+        if is_loop:
             ini = fenv.assigns.get(acc_name, [])
-            inits = [v for v in ini if v is not None]
-            is_loop = any(isinstance(n, ast.For) for n in chain)
-            if is_loop:
-                if len(ini) != 1 or len(inits) != 1 or not (
-                        (isinstance(inits[0], ast.List) and not inits[0].elts)
-                        or (is_call(inits[0], name="list") and not inits[0].args)):
-                    raise TranslateError("parse_file: the result list does not start empty")
+            if len(ini) != 1 or ini[0] is None or not (
+                    (isinstance(ini[0], ast.List) and not ini[0].elts)
+                    or (is_call(ini[0], name="list") and not ini[0].args and not ini[0].keywords)):
+                raise TranslateError("parse_file: the result list does not start empty")
         # nothing else may touch the accumulator
         uses = [x for x in ast.walk(fn) if isinstance(x, ast.Name) and x.id == acc_name]
         if len(uses) != 3 - (0 if any(isinstance(n, ast.For) for n in chain) else 1):
@@ -1328,10 +1333,6 @@ def read_parse_file(fn, interp):
     a_line = fenv.resolve(a_line)
     line_is_element = isinstance(a_line, ast.Name) and a_line.id == lvar
     terms, const = linear(a_no, fenv)
-    # canonical names
-    canon = {}
-    for t, c in list(terms.items()) + list(start_terms.items()):
-        pass
     if terms.get(ivar) != 1:
         raise TranslateError("parse_file: line number is not <index> + ... (found `%s`)" % _src(a_no))
     # the index may be used for nothing else
